@@ -1,0 +1,52 @@
+//go:build verif
+
+// Contracts for govc (/verif): C18 round hashes are a deterministic function of the round's snapshot set.
+// computeRoundHash is the startup validator's copy of common.ComputeRoundHash. It gets the SAME contract: the same
+// precondition, and postconditions built from the same shared spec functions of package common
+// (common.RoundKeyLess: the comparator key order, common.RoundSeed: Blake3(nodeId | be64(number)),
+// common.RoundStep: Blake3(prev | snapshot hash)); only the element type of the slice differs
+// (*common.SnapshotWithTopologicalOrder embeds *common.Snapshot), hence a second `rec` with the same defining text.
+// Comment-only file.
+
+package storage
+
+//@ spec TopoSliceOK(ss []*common.SnapshotWithTopologicalOrder) bool = forall i int :: 0 <= i && i < len(ss) ==> ss[i] != nil && ss[i].Snapshot != nil && ss[i].Timestamp < 9223372036854775808
+//@ spec TopoSpanOK(ss []*common.SnapshotWithTopologicalOrder) bool = forall i, j int :: 0 <= i && i < len(ss) && 0 <= j && j < len(ss) ==> ss[i].Timestamp < ss[j].Timestamp + config.SnapshotRoundGap
+//@ spec TopoSorted(ss []*common.SnapshotWithTopologicalOrder) bool = forall i, j int :: 0 <= i && i < j && j < len(ss) ==> !common.RoundKeyLess(ss[j].Timestamp, ss[j].Hash, ss[i].Timestamp, ss[i].Hash)
+//@ rec RoundChain(seed crypto.Hash, ss []*common.SnapshotWithTopologicalOrder, n int) crypto.Hash = n <= 0 ? seed : common.RoundStep(RoundChain(seed, ss, n - 1), ss[n - 1].Hash)
+
+//@ -- Agreement of the two chain functions, as the base and the step of an induction on n (the induction itself is the
+//@ -- meta-level step): on slices of equal length whose k-th elements carry the same Hash, storage.RoundChain and
+//@ -- common.RoundChain coincide.
+//@ lemma RoundChainAgreeBase(seed crypto.Hash, a []*common.Snapshot, b []*common.SnapshotWithTopologicalOrder)
+//@   property C18
+//@   ensures [base] common.RoundChain(seed, a, 0) == RoundChain(seed, b, 0)
+//@ lemma RoundChainAgreeStep(seed crypto.Hash, a []*common.Snapshot, b []*common.SnapshotWithTopologicalOrder, n int)
+//@   property C18
+//@   requires n > 0 && n <= len(a) && len(a) == len(b) && a[n - 1].Hash == b[n - 1].Hash
+//@   requires common.RoundChain(seed, a, n - 1) == RoundChain(seed, b, n - 1)
+//@   ensures [step] common.RoundChain(seed, a, n) == RoundChain(seed, b, n)
+
+//@ func computeRoundHash$1
+//@   property C18
+//@   requires TopoSliceOK(snapshots) && 0 <= i && i < len(snapshots) && 0 <= j && j < len(snapshots)
+//@   pure
+//@   ensures result <==> common.RoundKeyLess(snapshots[i].Timestamp, snapshots[i].Hash, snapshots[j].Timestamp, snapshots[j].Hash)
+
+//@ func computeRoundHash
+//@   property C18
+//@   requires len(snapshots) > 0 && TopoSliceOK(snapshots) && TopoSpanOK(snapshots)
+//@   modifies snapshots[..]
+//@   ensures [bounds] result0 <= result1 && result1 < result0 + config.SnapshotRoundGap
+//@   ensures [range] forall i int :: 0 <= i && i < len(snapshots) ==> result0 <= snapshots[i].Timestamp && snapshots[i].Timestamp <= result1
+//@   ensures [sorted] TopoSorted(snapshots)
+//@   ensures [same-in] forall i int :: 0 <= i && i < len(snapshots) ==> exists j int :: 0 <= j && j < len(snapshots) && snapshots[i] == old(snapshots[j])
+//@   ensures [same-out] forall j int :: 0 <= j && j < len(snapshots) ==> exists i int :: 0 <= i && i < len(snapshots) && snapshots[i] == old(snapshots[j])
+//@   ensures [start] result0 == snapshots[0].Timestamp
+//@   ensures [end] result1 == snapshots[len(snapshots) - 1].Timestamp
+//@   ensures [hash] result2 == RoundChain(common.RoundSeed(nodeId, number), snapshots, len(snapshots))
+//@   loop 0 invariant TopoSliceOK(snapshots) && forall k int :: 0 <= k && k <= rangeindex ==> snapshots[k].Version <= version
+//@   loop 0 invariant [sorted] TopoSorted(snapshots)
+//@   loop 1 invariant TopoSliceOK(snapshots) && (forall k int :: 0 <= k && k < len(snapshots) ==> snapshots[k].Version <= version && snapshots[k].Timestamp <= end)
+//@   loop 1 invariant [sorted] TopoSorted(snapshots)
+//@   loop 1 invariant [chain] hash == RoundChain(common.RoundSeed(nodeId, number), snapshots, rangeindex + 1)
